@@ -30,6 +30,8 @@ type cancelSpec struct {
 	// Nested: the pipeline is itself included by a stage of an outer pipeline (a condition error or a Cancel then
 	// arrives inside a nested scheduling loop)
 	Nested bool `json:"nested,omitempty"`
+	// Shared (with Nested): two stages of the outer pipeline include it, so two scheduling loops work on it
+	Shared bool `json:"included_twice,omitempty"`
 	// TaskTimeout: the tasks carry a (long) timeout of their own
 	TaskTimeout bool `json:"task_timeout,omitempty"`
 }
@@ -207,6 +209,7 @@ func c12(c *h.Ctx) {
 	for k := 0; k <= 2; k++ {
 		for _, w := range []int{1, 2} {
 			add(cancelSpec{K: k, W: w, Mode: "pipeline", Point: "cond-error", Cancels: "once", Via: "cond", Cmd: "sleep", Nested: true})
+			add(cancelSpec{K: k, W: w, Mode: "pipeline", Point: "cond-error", Cancels: "once", Via: "cond", Cmd: []string{"sleep", "ignore-int"}[w-1], Nested: true, Shared: true})
 			if k > 0 {
 				add(cancelSpec{K: k, W: w, Mode: "pipeline", Point: "during-command", Cancels: []string{"once", "concurrent"}[w-1], Via: "scheduler", Cmd: "sleep", Nested: true})
 			}
